@@ -74,6 +74,11 @@ def main(ctx, args):
             msrc, minp = matchgen.make_case(ctx.seed, i, times)
             allcases.append({"id": f"matchint:{ctx.seed}:{i}", "src": msrc, "sx": None, "inputs": minp, "times": times})
         gstats["matchint_programs"] += 150 if ctx.tier == "quick" else 2000
+    if not args.replay:
+        import arrgen      # arrays with stateful index / element expressions (tools/gen/arrgen.py): VM against WASM
+        for c in arrgen.make(ctx.seed, 60 if ctx.tier == "quick" else 180):
+            allcases.append(dict(c, times=times, inputs=[]))
+        gstats["array_programs"] += 60 if ctx.tier == "quick" else 180
     # corpus stream: every shipped source that both backends accept, plus token-level mutants (constants, operators)
     corpus_stats = collections.Counter()
     if not args.replay:
